@@ -40,3 +40,68 @@ PROPS["C09"] = dict(
                  "the AngNormalize/AngDiff contract (range and congruence mod 360) is decided exactly per sampled input, not proved for all doubles (C16)",
                  "order-7 coefficients of the auxiliary-latitude series are bounded by 100 (series-mode tolerance at |f| = 0.01)"],
 )
+
+# ---- deepening round (G09) -------------------------------------------------------------------------------------------
+import hashlib as _hl, os as _os
+_verif = _os.path.dirname(_os.path.dirname(_os.path.dirname(_os.path.abspath(__file__))))
+_repo = _os.environ.get("GV_REPO", "/repo")
+
+
+def _tool_digest():
+    # harness/C09.cpp compiles $GV_REPO/tools/RhumbSolve.cpp into itself (observe_at: tools/RhumbSolve): the harness cache key must
+    # depend on its text (the generic key covers only the library and the harness sources)
+    try:
+        return _hl.sha256(open(_os.path.join(_repo, "tools", "RhumbSolve.cpp"), "rb").read()).hexdigest()[:16]
+    except OSError:
+        return "0"
+
+
+_P = PROPS["C09"]
+_P["harnesses"] = [dict(name="C09", procs_quick=2, procs_thorough=16,
+                        extra=["-I" + _os.path.join(_verif, "harness", "C09_tools"), "-DGV_TOOLS_DIGEST=0x" + _tool_digest()])]
+_P["rule"] += (
+    ". Deepening round: every inverse case in series mode is also run through op rh_inv (Rhumb::GenInverse end to end against Model/RhumbSeries.lean), every direct case through rh_pos "
+    "(RhumbLine constructor members + GenPosition), exact-mode cases through rh_xinv / rh_xpos (Model/RhumbExact.lean around the exact conversions); new inverse strata: opposite hemispheres with "
+    "|lat1| + |lat2| > 90 (tan chi1 tan chi2 < -1, the branch cut of Datan), same parallel with |lat| in (45, 90) and in [0, 45] incl. lon12 = 180 x 10^-k; rh_const for every ellipsoid of the list "
+    "(+ f = +-0.0033, 1e-9, 0.006, -0.009); rh_dconv for all 36 ordered pairs of auxiliary latitudes on equal / 1 ulp apart / 1e-13..1 apart / mirrored / independent angles given by unnormalized "
+    "points (scale 1e-3..1e3); rh_msx; rh_de, rh_drect on the latitude strata; rh_carlson on x in [0, 1] (incl. 0), y in (0.1, 2), z = 1 or 1e-2..1e2; rh_datanhee on the tangent strata of op dd; "
+    "rh_api (every third case: all overloads, all 8 output masks of both solvers and of the line, ALL, LONG_UNROLL, line copy / constructor, PolygonArea-facing overloads); rh_solve (every fourth "
+    "case: RhumbSolve compiled from $GV_REPO/tools, direct / -i / -L x -E x -u, three input lines, one in four runs with a malformed line in between)")
+_P["tolerances"].update({
+    "Model/RhumbSeries.lean, Model/RhumbExact.lean vs implementation (ops rh_*)": "4 x the first-order running error bound of the model's own binary64 evaluation on the same inputs (FP/RunErr.lean; Wilkinson; libm calls 1 ulp, hypot 2 ulp), as in C01/C02: computed from the arithmetic of the model for every input, hence condition-aware; nothing fitted. Members that are passed through (_lat1, _lon1, _azi12, _salp, _calp) must be equal. |mu2| within its own error bound of 90: either branch accepted",
+    "DE vs quadrature (dd-elliptic)": "64 ulp + length tolerance / (R_mu (pi cos(phi) + |dphi|)) as for DRectifying (cos((x+y)/2) of the radian angles loses relative accuracy next to a pole, where lengths shrink with cos(phi))",
+    "DConvert vs (Convert(zeta2) - Convert(zeta1))/(zeta2 - zeta1) (dd-convert)": "64 ulp / |zeta2 - zeta1| (the points are rounded (sin, cos) pairs), only for 1e-3 < |zeta2 - zeta1| < 3",
+    "RhumbSolve vs library": "half a unit of the last printed digit at -p 10 (1e-15 deg, 1e-10 m, 1e-3 m^2) + 4 ulp; exit status and the number of output lines exactly",
+    "interfaces (rh_api, accessors, WGS84)": "exact equality (bit for bit; sentinel untouched for outputs that were not requested)",
+})
+_P["level_text"] = (
+    "THE WHOLE SERIES PATH OF Rhumb IS A LEAN MODEL (Model/RhumbSeries.lean, polymorphic, same operations in the same order): the constructor (_n, _rm, _c2, AreaCoeffs on the table re-extracted from Rhumb.cpp, "
+    "the seven AuxLatitude coefficient blocks via fillcoeff on the tables re-extracted from AuxLatitude.cpp), AuxAngle (normalized, radians, tan, lam, degrees via the C16 octant logic of atan2d, sincosd on [-90, 90]), "
+    "Convert (Clenshaw + rotation), DConvert, DClenshaw, Dlam, Dp0Dpsi, MeanSinXi, GenInverse (incl. the pole branch), the RhumbLine constructor (pole start cos = eps^2) and GenPosition (both branches; AngNormalize, LatFix and the two-step pole reduction "
+    "are the exact binary64 models of C16). THE EXACT PATH (Model/RhumbExact.lean): Carlson RF/RD (duplication loops as coded), DE (DLMF 19.11 addition theorem; parametric in the kernels RF, RD), DParametric, Datanhee, DIsometric, "
+    "DRectifying (around the values of AuxLatitude::Rectifying), the exact branches of GenInverse / MeanSinXi / GenPosition around the exact conversions and the DST-fitted _pP. Both are executed in the running-error arithmetic against "
+    "the implementation on every sampled input (4 x the model's own first-order bound). "
+    "THEOREMS over R about these executed definitions, for EVERY coefficient list (hence for the extracted tables): convert_is_series (Convert returns the unit point of zeta + sum c_k sin((2k+2) zeta) when the correction is below a right angle); "
+    "DConvert_dd (DConvert x (zeta2 - zeta1) = Convert-series difference for all representatives of angles in (-pi, pi], no exception at Delta = 1), DConvert_confluent (HasDerivAt of the series at zeta1 = zeta2), dclenshaw_dd_all, "
+    "dclenshaw_confluent (DClenshaw at Delta = 0 is the derivative of the Clenshaw sum, sine and cosine series, by continuity of the matrix recurrence and of sinc); dmudpsi_series_dd / _parallel; "
+    "geninverse_series: THE SERIES RHUMB INVERSE IS THE EXACT RHUMB INVERSE OF THE SERIES AUXILIARY LATITUDES - azi12 is the direction in degrees of (psi2 - psi1, lam12) (tan azi12 = lam12/(psi2 - psi1), right quadrant), s12 cos azi12 = _rm (mu(chi2) - mu(chi1)), "
+    "s12 sin azi12 = lam12 dmudpsi _rm, s12 = hypot(lam12, psi12) dmudpsi _rm with dmudpsi = mu'(chi) cos chi on a parallel, S12 = _c2 lon12 MeanSinXi; meansinxi_series(_composed, _parallel): MeanSinXi (psi_y - psi_x) = Delta p0 + Dp (beta~_y - beta~_x) with Dp the Clenshaw "
+    "divided difference of the area series p = sum P_l cos((2l+2) beta) (certified by rhumb_area_table), = Delta(p0 + p o beta) under the composition hypothesis; gendirect_geninverse_series: GenPosition fed with the inverse solution returns phi2, lon12 and the same S12 "
+    "UNDER the hypotheses that the chi->mu series after phi->chi is the phi->mu series and that mu->phi reverts phi->mu at phi2 - these hold only modulo n^7 for the tables (C15 Gen certificates aux_compose_partial, aux_revert): the truncation is a stated hypothesis, not proved away; "
+    "sincosd90_spec, atan2d_spec. Exact path: Dsin_dd, Dh_confluent, DParametric_dd (all four branches incl. the reciprocal one) and DParametric_confluent (both sub-branches: the value seeded change C09E corrupts), Datanhee_prolate_dd / _oblate_dd, "
+    "DIsometric_oblate_dd / _prolate_dd (divided difference of asinh(tan phi) - e atanh(e sin phi) resp. + e atan(e sin phi)), DE_symmetric, DE_unit_circle, DE_confluent (for every kernel pair with RF(1,1,1) = 1: DE(X, X) = sqrt(1 + e'^2 sin^2 x)), "
+    "DRectifying_chain (chain rule for every kernel whose DE is a divided difference), DRectifying_opposite, DRectifying_confluent. Previously: " + _P["level_text"].replace(
+        "Partial: no theorem bounds the floating-point error of the solvers; DRectifying/DE (elliptic integrals), AuxLatitude::Convert and the DST fit of the exact area are kernels covered by the oracle only.",
+        "PARTIAL / NOT PROVED: no theorem bounds the floating-point error of the solvers (running-error bounds are computed per input, not proved); the addition theorem for E behind DE (DLMF 19.11.2; checked against quadrature, relation dd-elliptic) and that RF/RD are Carlson's integrals; "
+        "AuxLatitude::Rectifying / Conformal / the Newton inversions of the exact conversions and the DST fit of the exact area coefficients are kernels (values taken from the implementation, judged by the quadrature oracle); the isinf/isnan shelters of Dlam, Dp0Dpsi, DIsometric, "
+        "AuxAngle::normalized are outside the formula models (judged by the harness: dd-limit); the closure theorem carries the mod-n^7 composition/reversion as hypotheses."))
+_P["level_note"] = ("hand-written polymorphic (RealLike) models: Model/Rhumb.lean (helpers, DClenshaw, wrappers), Model/RhumbSeries.lean (series path end to end), Model/RhumbExact.lean (exact path around kernels); "
+                    "tables (AreaCoeffs, AuxLatitude coeffs/ptrs, radius polynomials, qd/hd/td) regenerated from the sources each run; AngDiff/AngNormalize/LatFix are the exact F64 models of C16; atan2d octant logic shared with C16 (atan2d_octant); "
+                    "oracle in x87 long double with 24-point Gauss-Legendre panels; tools/RhumbSolve.cpp compiled into the harness")
+_P["technique"] = ("Lean 4 proofs over R about the executed polymorphic models (divided differences, derivatives via continuity of the recurrences, inverse identities, closure under stated series hypotheses) + table certificate (decide +kernel) "
+                   "+ running-error (binary64) and exact-softfloat execution of the same definitions against the implementation + independent quadrature oracle + front-end / interface equalities")
+_P["assumptions"] = _P["assumptions"] + [
+    "libm calls are faithful to 1 ulp and C hypot to 2 ulp (running-error model of FP/RunErr.lean); Lean's Float functions bind to the same libm as the harness",
+    "DLMF 19.11.2/19.11.4 (addition theorem of the elliptic integral of the second kind) and 19.25.9-10, 19.36.1-2 (Carlson forms and series) are the right formulas; checked numerically by quadrature only",
+    "series composition / reversion modulo n^7 (C15: aux_compose_partial, aux_revert) enter the closure theorem gendirect_geninverse_series as hypotheses",
+]
